@@ -314,6 +314,14 @@ class Run:
     def add(self, key, n):
         self.cov[key] = self.cov.get(key, 0) + n
 
+    def foreign(self, prop, code, detail):
+        """a conjunct of ANOTHER property failed in this check's traces: not judged here (that property's own check
+        decides it), but never silent - it is printed and recorded in the evidence"""
+        lst = self.cov.setdefault("foreign_conjunct_failures", [])
+        if len(lst) < 10:
+            lst.append("%s %s %s" % (prop, code, str(detail)[:200]))
+            log("  note: conjunct of %s failed in this run (judged by ./check %s): %s %s" % (prop, prop, code, str(detail)[:300]))
+
     def sample(self, s, cap=6):
         if len(self.cov["samples"]) < cap:
             self.cov["samples"].append(s)
